@@ -669,10 +669,15 @@ int vnadata_convert(const vnadata_t *vdp_in, vnadata_t *vdp_out,
      * change the dimensions to a row vector.
      */
     if (vdp_in == vdp_out && (group & CONV_MASK) == CONV_xtoI) {
-	if (vdp_out->vd_rows < vdp_out->vd_columns) {
-	    vdp_out->vd_columns = vdp_out->vd_rows;
+	/*
+	 * Use vnadata_resize so that the vacated matrix cells are
+	 * returned to their initial values.
+	 */
+	if (vnadata_resize(vdp_out, newtype, 1,
+		    MIN(vdp_out->vd_rows, vdp_out->vd_columns),
+		    vdp_out->vd_frequencies) == -1) {
+	    return -1;
 	}
-	vdp_out->vd_rows = 1;
     }
     return 0;
 }
